@@ -28,7 +28,7 @@ def run(tier, seed):
     for i in range(n):
         recursive = (i % 3 == 2)
         if recursive:
-            spec = gen.random_spec(rng, recursive=True, linear=rng.choice([None, False]), allow_inf=False, max_nt=3, max_rules=3, max_nodes=3, max_edges=3, max_dom=2, dup_ext=False)
+            spec = gen.random_spec(rng, recursive=True, linear=rng.choice([None, False, True, True]), allow_inf=False, max_nt=3, max_rules=3, max_nodes=3, max_edges=3, max_dom=2, dup_ext=False)
             spec["weights"] = {el: gen.nested_map(w, lambda v: v if v <= 1 else Fraction(1, 2)) for el, w in spec["weights"].items()}
             configs = C02.CONFIGS2
         else:
